@@ -173,6 +173,30 @@ CHECKS.update({
             'The bound is the property\'s loose one; C04/C05 carry sharp '
             'detection.', '7/C07'),
 })
+CHECKS.update({
+    'C13': (E3, 'exhaustive enumeration of the finite (operator, config) lattice on the '
+            'real update/resolve API, plus execution of every accepted pair',
+            'All 22080 lattice points (23 selectors x activation x weight bits x '
+            'symmetry x granularity x dtype x compute precision x '
+            'explicit_dequantize x algorithm): update for a specific operator '
+            'accepts or raises ValueError only; the accept set equals the set a '
+            '"*" rule lets through at resolution; every accepted pair is '
+            'quantized on every variant of the single-operator model, prepared '
+            'and invoked in LiteRT and held to the C06/C07 numeric bounds; a '
+            'refused pair under "*" leaves the operator byte-identical.',
+            'Numeric soundness judged on single-operator models and the input '
+            'alphabet {mix, pos}.', '7/C13'),
+    'C16': (E1, 'bounded-exhaustive BFS over graph histories x recipes; differential '
+            'comparison of the two serialization paths (hook lowers the threshold)',
+            'Every (model, recipe) of the universe that returns is serialized '
+            'through the ordinary and, via the guarded hook, the large-model '
+            'path; external buffers must be 16-byte aligned, after the '
+            'flatbuffer, in bounds, disjoint and byte-equal to the embedded '
+            'ones; normalised object trees re-pack identically; LiteRT loads '
+            'both with identical outputs.',
+            'Hook AI_EDGE_QUANTIZER_VERIF_LARGE_MODEL_THRESHOLD only selects the '
+            'existing branch. Buffer sizes are small (2..256 bytes).', '7/C16'),
+})
 NOT_YET = {
 }
 
